@@ -139,7 +139,7 @@ def run(ctx):
     comp = progs.compile_sources(plain, churn_src)
     lines = ["vm.run 200000 0 " + b.hex() for n, t, b, e in comp if b]
     names = [n for n, t, b, e in comp if b]
-    pc = common.batch_robust(probe, lines, timeout=3000, env=env)
+    pc = common.batch_robust(probe, lines, timeout=3000, env=dict(env, VM_PROBE_RUN_VM_EXTERNS="1"))
     mc = common.batch(driver, lines, timeout=3000)[0]
     live = {}
     for n, a, c in zip(names, mc, pc):
@@ -147,8 +147,8 @@ def run(ctx):
         w = dict(x.split("=", 1) for x in c[2:].split()) if c.startswith("R ") else {}
         kind = n.split("-")[1]
         live.setdefault(kind, []).append((int(n.split("-")[2]), w.get("live"), w.get("res")))
-        if "unsupported(" in a and "unsupported(fuel)" not in a:
-            ctx.count("unsupported_by_model")       # e.g. element-wise array arithmetic: judged by the live-object count alone
+        if ("unsupported(" in a and "unsupported(fuel)" not in a) or a.strip() == "has-imports":
+            ctx.count("unsupported_by_model")       # e.g. element-wise array arithmetic, extern calls: judged by the live-object count alone
         elif a != c:
             disagreements.append((n, "final", a[:200], c[:200], ""))
     ctx.cov["churn"] = {k: v for k, v in live.items()}
